@@ -56,6 +56,7 @@ func runC05(c *core.Ctx) {
 	c.Rule("R3", "collision winner = f(two entries): leaving loses, else smaller id wins; LEFT skipped", 2)
 	c.Rule("R4", "normalisation and conflict resolution are applied on the stored map", 2)
 	c.Rule("R5", "tokensEqual compares lengths then elements", 1)
+	c.Rule("R6", "first-element reads of token lists are guarded by a non-emptiness check", 1)
 	pkg := c.Prog.Pkg("ring")
 	if pkg == nil {
 		c.Miss("R1", "pkg=ring", "not loaded")
@@ -187,6 +188,8 @@ func runC05(c *core.Ctx) {
 	c05MergeUses(c)
 	// ---- R5
 	c05TokensEqual(c)
+	// ---- R6
+	c05ConstIndex(c)
 }
 
 func isFreshBase(fn *an.Fn, base ast.Expr) bool {
@@ -471,4 +474,64 @@ func c05TokensEqual(c *core.Ctx) {
 		}}
 	res := t.Run()
 	c.Check(res.OK() && len(trues) > 0, "R5", "func=tokensEqual", fn.Pos(), "no `return true` is reachable when the two lists have different lengths: "+res.Summary(), res.Rows)
+}
+
+// c05ConstIndex (R6): in the ring's read paths, a slice indexed by a constant is never empty at that point:
+// the index expression is unreachable when len(slice) == 0 (decided by abstract execution with the length atom).
+func c05ConstIndex(c *core.Ctx) {
+	pkg := c.Prog.Pkg("ring")
+	n := 0
+	for _, fn := range an.Funcs(pkg) {
+		if fn.Obj == nil || strings.HasSuffix(c.Prog.PosStr(fn.Pos()), ".pb.go") || strings.Contains(c.Prog.PosStr(fn.Pos()), ".pb.go:") {
+			continue
+		}
+		if !(strings.HasPrefix(fn.Name, "(*Ring).") || strings.HasPrefix(fn.Name, "(*PartitionRing).") || strings.HasPrefix(fn.Name, "(*Desc).") || strings.HasPrefix(fn.Name, "(*PartitionRingDesc).")) {
+			continue
+		}
+		for _, lf := range append([]*an.Fn{fn}, fn.AllLits()...) {
+			g := lf.Graph()
+			lf.InspectShallow(func(x ast.Node) bool {
+				ix, ok := x.(*ast.IndexExpr)
+				if !ok {
+					return true
+				}
+				t := lf.Info().TypeOf(ix.X)
+				if t == nil {
+					return true
+				}
+				if _, isSlice := t.Underlying().(*types.Slice); !isSlice {
+					return true
+				}
+				tv, isConst := lf.Info().Types[ix.Index]
+				if !isConst || tv.Value == nil || tv.Value.String() != "0" {
+					return true
+				}
+				// writes into x[0] after make(…, n) etc. are not reads of possibly-empty input; only consider reads
+				if as, isAs := an.EnclosingStmt(lf.Body(), ix).(*ast.AssignStmt); isAs {
+					for _, l := range as.Lhs {
+						if an.Unparen(l) == ast.Expr(ix) {
+							return true
+						}
+					}
+				}
+				n++
+				xc := lf.Canon(ix.X)
+				loc := g.Locate(ix)
+				opts := an.ExecOpts{}
+				from := g.EntryLoc()
+				if obj := lf.ObjOf(ix.X); obj != nil {
+					opts.NoTrack = map[types.Object]bool{obj: true}
+					xc2 := obj.Name()
+					_ = xc2
+				}
+				bd := &an.Binder{Fn: lf, Cmp: map[string]string{"len(" + xc + ")|0": "n", "len(" + types.ExprString(ix.X) + ")|0": "n"}, Row: an.Row{"n": "eq"}}
+				ex := g.Exec(from, []an.Loc{loc}, bd.Leaf, opts)
+				c.Check(!ex.May[0], "R6", "index0:func="+lf.Name+":"+types.ExprString(ix.X), ix.Pos(), "the read "+types.ExprString(ix)+" is unreachable when len("+types.ExprString(ix.X)+") == 0 (otherwise a lookup on a zone/ring without tokens panics)", ex.Paths)
+				return true
+			})
+		}
+	}
+	if n == 0 {
+		c.Undec("R6", "index0", pkg.Syntax[0].Pos(), "no constant-index read found")
+	}
 }
